@@ -111,6 +111,35 @@ def run(ctx):
             ctx.violation("C20.R4", "C20.R4/finish-arm/" + ui.key, "generic writer finish() does not reach %s" % miss, ui.loc())
         else:
             ctx.ok("C20.R4", ui.key + " reaches all %d alignment Write::finish impls" % len(impls), "", ui.loc())
+    # every generic writer (alignment / variant, sync / async) offers a finishing call, and its dispatch has one arm per Inner
+    # variant that reaches a flush / finisher of that arm (every arm buffers: BufWriter or the BGZF staging buffer)
+    FIN_RX = re.compile(r"::(finish|try_finish|shutdown|flush|poll_shutdown|poll_flush)$")
+    for dom in ("alignment", "variant"):
+        for asy in ("", "r#async::"):
+            wty = U + "%s::%sio::writer::Writer" % (dom, asy)
+            inner = U + "%s::%sio::writer::inner::Inner" % (dom, asy)
+            fins = [k for k in fb.fns if k.startswith(wty + "::<W>::") and k.split("::")[-1] in ("finish", "try_finish", "shutdown")
+                    and not fb.fns[k].is_closure]
+            if not fins:
+                ctx.violation("C20.R4", "C20.R4/no-finisher/" + wty,
+                              "%s has no finish()/shutdown(): every arm buffers (BufWriter / BGZF staging), so the tail of the file is written, "
+                              "if at all, when the writer is dropped, where a destination failure is swallowed (async: never written)" % wty)
+                continue
+            ifins = [k for k in fb.fns if k.startswith(inner + "::<W>::") and k.split("::")[-1] in ("finish", "try_finish", "shutdown")
+                     and not fb.fns[k].is_closure]
+            nvar = len(fb.adts[inner]["variants"]) if inner in fb.adts else 0
+            reach = 0
+            for ik in ifins:
+                body = ctx.body("C20.R4", ik)
+                if body is None:
+                    continue
+                reach = max(reach, len([1 for b, c in body.calls() if FIN_RX.search(c.get("f") or "")
+                                        and "future" not in (c.get("f") or "") and "IntoFuture" not in (c.get("f") or "")]))
+            if ifins and nvar and reach >= nvar:
+                ctx.ok("C20.R4", "%s :: finisher dispatches to all %d arms" % (wty, nvar), "%s; %d flush/finish call(s)" % (fins[0].split("::")[-1], reach))
+            else:
+                ctx.violation("C20.R4", "C20.R4/finisher-arms/" + wty,
+                              "%s: the finisher reaches %d flush/finish call(s) for %d Inner variants" % (wty, reach, nvar))
     for dom, fmt_default in (("alignment", {"Bam": "Bgzf"}), ("variant", {"Bcf": "Bgzf"})):
         wk = U + "%s::io::writer::builder::Builder::build_from_writer" % dom
         ms = [m for m in fb.matches.get(wk, []) if m["sty"].endswith("format::Format")]
